@@ -1,4 +1,5 @@
 pub mod c01;
+pub mod c04;
 
 use crate::rt::{Args, Outcome, Report};
 use serde_json::Value;
@@ -6,6 +7,7 @@ use serde_json::Value;
 pub fn run(args: &Args, rep: &mut Report) -> Result<(), String> {
 	match args.prop.as_str() {
 		"C01" => c01::run(args, rep),
+		"C04" => c04::run(args, rep),
 		p => return Err(format!("unknown property {}", p)),
 	}
 	Ok(())
@@ -14,6 +16,7 @@ pub fn run(args: &Args, rep: &mut Report) -> Result<(), String> {
 pub fn replay(args: &Args, part: &str, case: &Value) -> Result<Outcome, String> {
 	match args.prop.as_str() {
 		"C01" => c01::replay(args, part, case),
+		"C04" => c04::replay(args, part, case),
 		p => Err(format!("unknown property {}", p)),
 	}
 }
